@@ -70,10 +70,10 @@ theorem restartRun_on_saved (E : Env) (cfg : Config) (hm : Bool) (readGroups : L
   simp only [Int.toNat_natCast]
   exact processSaved_unaligned E cfg [ua] u names _ (by rw [hu]; simp [countUnaligned])
 
-/-- **restart_is_second_half** (after fix cc73ffc, full strength): whatever the saving run computed from the files it
+/-- **restart_is_second_half_files** (the set-up aside: Props/C15Setup.lean `restart_is_second_half` adds it; after fix cc73ffc): whatever the saving run computed from the files it
     wrote (in both memory modes it computes its outputs from them), a run restarted from these files computes again –
     the loaded `_info`, the per-chromosome records and tables, the merged tables, TPM and the `__not_aligned` line. -/
-theorem restart_is_second_half (E : Env) (cfg : Config) (readGroups : List String) (unmapped : List Nat)
+theorem restart_is_second_half_files (E : Env) (cfg : Config) (readGroups : List String) (unmapped : List Nat)
     (chroms : List ChrIn) (files : Saved) (o : RunOut)
     (h : savingRun E cfg readGroups unmapped chroms = some (files, o)) :
     restartRun E cfg (chroms.map (·.name)) files = some o := by
